@@ -29,7 +29,7 @@ const NAMES: &[&str] = &[
 const STRS: &[&str] = &[
     "", "plain", "two words", "quote\"inside", "back\\slash", "new\nline", "tab\t", "cr\r", "nul\0",
     "é", "日本語 text", "😀", "; not a comment", "{ not a block }", "// /* */", "#true", "@cap", "$1",
-    "trailing\\", "a\\nb",
+    "trailing\\", "a\\nb", "ab€", "abc€é", "é€", "a€",
 ];
 
 const REGEXES: &[&str] = &["a+", "([^/]+)/", "\\.py$", "(é|ü)", "x*", "\"q\"", "\\\\", "[{}]", "\\s;"];
